@@ -64,7 +64,7 @@ func (f *FilterData) SelectorMatch(item any) bool {
 	return true
 }
 
-// check if two values of a simple kind are equal, even if they are of different named types
+// check if two values are equal, those of a simple kind even if they are of different named types
 func sameSimpleValue(a, b reflect.Value) bool {
 	if a.Kind() == b.Kind() {
 		switch a.Kind() {
@@ -85,7 +85,8 @@ func sameSimpleValue(a, b reflect.Value) bool {
 		return false
 	}
 
-	return a.Interface() == b.Interface()
+	// structured values, e.g. addresses, contain pointers and slices
+	return reflect.DeepEqual(a.Interface(), b.Interface())
 }
 
 // Get the field for a given functionType
